@@ -25,7 +25,7 @@ KINDS = ['add', 'add', 'add', 'add', 'add', 'add_from', 'path', 'star', 'cycle',
 
 
 def strategy(tier):
-    return gen.tiered(tier, max_ops=12, min_ops=2, rejects=False, kinds=KINDS, selfloops=False, horizon=6, attrs=False)
+    return gen.tiered(tier, max_ops=12, min_ops=2, rejects=False, kinds=KINDS, selfloops=False, horizon=6, attrs=False, shifts=True)
 
 
 def close(x, f):
